@@ -99,17 +99,24 @@ _add('close', ['libc::close'], handle=0)
 _add('lock', ['libc::flock', 'libc::lockf', 'libc::fcntl', 'libc::pthread_mutex_lock', 'libc::sem_wait'])
 _add('block', ['libc::sleep', 'libc::usleep', 'libc::nanosleep', 'libc::poll', 'libc::select', 'libc::waitpid',
                'libc::sched_yield'])
-_add('ns_remove_file', ['libc::unlink', 'libc::unlinkat'], path=0)
+_add('ns_remove_file', ['libc::unlink'], path=0)
+_add('ns_remove_file', ['libc::unlinkat'], dir=0, path=1)
 _add('ns_remove_dir', ['libc::rmdir'], path=0)
-_add('publish_replace', ['libc::rename', 'libc::renameat', 'libc::renameat2'], src=0, dst=1)
-_add('publish_excl', ['libc::link', 'libc::linkat'], src=0, dst=1)
-_add('open_rw', ['libc::open', 'libc::openat', 'libc::creat'], path=0)
+_add('publish_replace', ['libc::rename'], src=0, dst=1)
+_add('publish_replace', ['libc::renameat', 'libc::renameat2'], src=1, dst=3)
+_add('publish_excl', ['libc::link'], src=0, dst=1)
+_add('publish_excl', ['libc::linkat'], src=1, dst=3)
+_add('open_rw', ['libc::open', 'libc::creat'], path=0)
+_add('open_rw', ['libc::openat'], dir=0, path=1)
 _add('content_write', ['libc::write', 'libc::pwrite', 'libc::writev'], handle=0)
 _add('truncate', ['libc::ftruncate', 'libc::truncate'], handle=0)
 _add('sync', ['libc::fsync', 'libc::fdatasync'], handle=0)
-_add('meta_perm', ['libc::chmod', 'libc::fchmod', 'libc::fchmodat', 'libc::chown', 'libc::fchown'], path=0)
-_add('meta_times', ['libc::utimensat', 'libc::futimens', 'libc::utimes', 'libc::utime'], path=0)
-_add('ns_create_dir', ['libc::mkdir', 'libc::mkdirat'], path=0)
+_add('meta_perm', ['libc::chmod', 'libc::fchmod', 'libc::chown', 'libc::fchown'], path=0)
+_add('meta_perm', ['libc::fchmodat', 'libc::fchownat'], dir=0, path=1)
+_add('meta_times', ['libc::futimens', 'libc::utimes', 'libc::utime'], path=0)
+_add('meta_times', ['libc::utimensat'], dir=0, path=1)
+_add('ns_create_dir', ['libc::mkdir'], path=0)
+_add('ns_create_dir', ['libc::mkdirat'], dir=0, path=1)
 _add('fd_dup', ['libc::dup', 'libc::dup2', 'libc::dup3'], handle=0)
 
 # ---------------------------------------------------------------- filetime
